@@ -333,7 +333,7 @@ func scenarioC20Serve(rc *RunCtx) *Violation {
 	rc.Sample("client_programs", progDesc)
 	rc.Sample("serve", map[string]interface{}{"servedir": servedir, "port": port, "outputs": outRel})
 
-	opts.Plugins = c20Plugins(g, p.Root)
+	opts.Plugins = c20Plugins(g, p.Root, d, opts.Write)
 	var zero api.BuildResult
 	zeroDigest := resultDigest(&zero)
 	var ctxErr string
@@ -835,12 +835,10 @@ func (sc *serveCheck) checkStreams(builds []*c20Build, ok func(int) bool, files 
 				for pos < len(bcs) {
 					x := bcs[pos]
 					pos++
-					if strings.Join(a, ",") == strings.Join(x.added, ",") && strings.Join(r, ",") == strings.Join(x.removed, ",") && strings.Join(u, ",") == strings.Join(x.upd, ",") {
+					// (a build whose owner had finished before the stream was opened cannot be the
+					// one this event belongs to; consecutive builds often have identical changes)
+					if builds[x.build].endExt >= s.open && strings.Join(a, ",") == strings.Join(x.added, ",") && strings.Join(r, ",") == strings.Join(x.removed, ",") && strings.Join(u, ",") == strings.Join(x.upd, ",") {
 						matched = true
-						// the build must not have finished long before the stream was opened
-						if builds[x.build].endExt < s.open {
-							return viol("sse-event-for-old-build", "stream opened at event %d received the change of build %d, whose owner had finished at event %d", s.open, x.build, builds[x.build].endExt)
-						}
 						break
 					}
 					// skipped broadcast: legitimate only if it was not surely inside the stream's life
